@@ -19,12 +19,84 @@ pub fn load_cases(filter: Option<&str>) -> Vec<Case> {
         let mut k = base.clone();
         k.rekey();
         if k.run().verdict == "accept" {
-            out.push(k);
+            if let Some(d) = with_witness_script(&k) {
+                out.push(k);
+                out.push(d);
+            } else {
+                out.push(k);
+            }
         } else {
             out.push(base);
         }
     }
     out
+}
+
+/// Derived fixture: a transaction whose Plutus script is supplied by a reference input gets the same
+/// script in its witness set as well (fee raised for the larger size, value preserved, re-signed).
+/// The upstream Conway Plutus fixtures only use reference scripts, so without this the validator's
+/// witness-script paths (collateral rules, ...) would never run in Conway.  Kept only if accepted.
+fn with_witness_script(k: &Case) -> Option<Case> {
+    use crate::cbor::Cb;
+    if !matches!(k.era.as_str(), "babbage" | "conway") || [3u64, 6, 7].iter().any(|x| k.wits().get(*x).is_some()) {
+        return None;
+    }
+    let r = k.utxo.iter().find(|u| u.role == "ref" && u.out.get(3).is_some())?;
+    let Cb::Tag(24, _, inner) = r.out.get(3)? else { return None };
+    let sr = Cb::parse(inner.as_bytes()?).ok()?;
+    let items = sr.items()?;
+    let key = match items[0].as_u64()? {
+        1 => 3u64,
+        2 => 6,
+        3 => 7,
+        _ => return None,
+    };
+    let mut d = k.clone();
+    d.name = format!("{}+witness-script", k.name);
+    d.wits_mut().set(key, Cb::array(vec![items[1].clone()]));
+    let extra = 44 * (items[1].as_bytes()?.len() as u64 + 16);
+    let i = d.richest_output();
+    let (fee, coin) = (d.fee(), d.out_coin(i));
+    d.set_fee(fee + extra);
+    crate::mutate::val_set_coin(d.out_value_mut(i)?, coin.checked_sub(extra)?);
+    // the collateral must cover the larger fee: take it out of the collateral return, keep the annotation exact
+    let more = extra * 2;
+    // (the upstream Conway fixtures give the collateral input the value of the collateral *return*, which goes
+    //  unnoticed there because the collateral rules are skipped; make the input worth return + total collateral)
+    if let (Some(u), Some(t)) = (d.utxo_index_of(13, 0), d.body().get(17).and_then(|t| t.as_u64())) {
+        let ret_coin = match d.body().get(16) {
+            Some(r @ Cb::Map(..)) => r.get(1).map(crate::mutate::val_coin),
+            Some(r) => r.items().and_then(|i| i.get(1)).map(crate::mutate::val_coin),
+            None => None,
+        };
+        if let Some(rc) = ret_coin {
+            let cur = crate::mutate::val_coin(d.utxo_value_mut(u)?);
+            if cur < rc + t && d.utxo[u].role == "coll" {
+                crate::mutate::val_set_coin(d.utxo_value_mut(u)?, rc + t);
+            }
+        }
+    }
+    if let Some(ret) = d.body_mut().get_mut(16) {
+        let v = match ret {
+            Cb::Map(..) => ret.get_mut(1)?,
+            _ => ret.items_mut()?.get_mut(1)?,
+        };
+        let c = crate::mutate::val_coin(v);
+        crate::mutate::val_set_coin(v, c.checked_sub(more)?);
+        if let Some(t) = d.body().get(17).and_then(|t| t.as_u64()) {
+            d.body_mut().set(17, Cb::uint(t + more));
+        }
+    }
+    d.resign();
+    let o = d.run();
+    if o.verdict == "accept" {
+        Some(d)
+    } else {
+        if std::env::var("PV_DEBUG").is_ok() {
+            eprintln!("derived {} not accepted: {} {}", d.name, o.verdict, o.detail);
+        }
+        None
+    }
 }
 
 fn short(name: &str) -> String {
